@@ -45,6 +45,9 @@ func execDirect(f []string) (res string) {
 	if len(f) < 2 {
 		return "bad-op"
 	}
+	if isAPIOp(f[0]) {
+		return execAPI(f)
+	}
 	switch f[0] {
 	case "pom":
 		l, ok := decodeLineage(f[1:])
@@ -107,10 +110,25 @@ func startWorker() *worker {
 	return &worker{cmd, in, bufio.NewReaderSize(out, 1<<20)}
 }
 
-func (w *worker) stop() {
+// kill: the child hangs or is broken.
+func (w *worker) kill() {
 	w.in.Close()
 	w.cmd.Process.Kill()
 	w.cmd.Wait()
+}
+
+// stop: end of input; the child returns from main (which is when a binary built with
+// -cover writes its counters), and is killed only if it does not.
+func (w *worker) stop() {
+	w.in.Close()
+	done := make(chan struct{})
+	go func() { w.cmd.Wait(); close(done) }()
+	select {
+	case <-done:
+	case <-time.After(5 * time.Second):
+		w.cmd.Process.Kill()
+		<-done
+	}
 }
 
 // callWorker runs one op in the child; a child that dies or does not answer in
@@ -126,7 +144,7 @@ func callWorker(f []string) string {
 	}
 	w := wk
 	if _, err := io.WriteString(w.in, strings.Join(f, " ")+"\n"); err != nil {
-		w.stop()
+		w.kill()
 		wk = nil
 		return "timeout"
 	}
@@ -142,13 +160,13 @@ func callWorker(f []string) string {
 	select {
 	case a := <-ch:
 		if a.err != nil {
-			w.stop()
+			w.kill()
 			wk = nil
 			return "timeout"
 		}
 		return strings.TrimRight(a.s, "\n")
 	case <-time.After(opTimeout):
-		w.stop()
+		w.kill()
 		wk = nil
 		return "timeout"
 	}
@@ -243,6 +261,29 @@ func exec1(f []string) string {
 		return "bad-op"
 	}
 	switch f[0] {
+	case "apireq", "apidirect":
+		if _, ok := lineageArg(f[1:]); !ok {
+			return "bad-op"
+		}
+		return callWorker(f)
+	case "deptype":
+		if _, _, ok := decodeDepOrigin(f[1:]); !ok {
+			return "bad-op"
+		}
+		return callWorker(f)
+	case "typedep":
+		if len(f) != 2 {
+			return "bad-op"
+		}
+		if _, ok := parseType(f[1]); !ok {
+			return "bad-op"
+		}
+		return callWorker(f)
+	case "probe":
+		if len(f) != 4 || f[1] != "api" {
+			return "bad-op"
+		}
+		return callWorker(f)
 	case "pom", "interp":
 		// validate here too so that garbage never reaches the child
 		if f[0] == "pom" {
@@ -297,6 +338,21 @@ func recheck(oracle string, ops, res []string) (bool, string) {
 			}
 		}
 		return false, ""
+	case "api-direct":
+		return apiDirectVerdict(ops, res)
+	case "api-total":
+		for i := range ops {
+			if f := strings.Fields(ops[i]); len(f) > 1 && f[1] == "probe" {
+				if bad, detail := probeVerdict(ops[i], res[i]); bad {
+					return true, detail
+				}
+			} else if res[i] == "timeout" || strings.HasPrefix(res[i], "panic") {
+				return true, "the library did not return normally (" + res[i] + ") on " + trunc(ops[i], 200)
+			}
+		}
+		return false, ""
+	case "deptype-roundtrip":
+		return depTypeVerdict(ops[0], res[0])
 	case "pom-ref":
 		l, ok := lineageOf(ops[0])
 		if !ok {
@@ -366,7 +422,14 @@ func show(ds []Dep) string {
 }
 
 func classifyFailure(oracle string, ops, res []string) string {
-	if oracle != "pom-ref" || len(ops) == 0 {
+	if len(ops) == 0 {
+		return ""
+	}
+	switch oracle {
+	case "api-total", "deptype-roundtrip":
+		return apiFinding(ops[0])
+	}
+	if oracle != "pom-ref" {
 		return ""
 	}
 	l, ok := lineageOf(ops[0])
@@ -407,6 +470,7 @@ func runLineage(c *fw.Ctx, l *Lineage, tag string) {
 		c.Count("go:" + res)
 	}
 	c.Count(fmt.Sprintf("poms:%d", 1+len(l.Repo)))
+	runAPI(c, enc)
 }
 
 func runTable(c *fw.Ctx, t tableCase) {
@@ -457,6 +521,7 @@ func run(c *fw.Ctx) {
 			sample = append(sample, l)
 		}
 	}
+	runAPIStreams(c)
 	mavenValidate(c, sample)
 	if wk != nil {
 		wk.stop()
